@@ -95,6 +95,8 @@ def handle : List String → String
           let (r, d') := IntReg.setValue port e s addr len (BitVec.ofInt 64 v) d
           fin (showRes (fun _ => "ok") r) d'
         | none => "bad-op"
+      else if op == "int.min" then fin s!"ok {(IntReg.min s).toInt}" d
+      else if op == "int.max" then fin s!"ok {(IntReg.max s).toInt}" d
       else if op == "float.value" then
         let (r, d') := FloatReg.value (F := FBits) port e addr len d
         fin (showRes (fun v => s!"ok {showFloat v.bits}") r) d'
